@@ -100,7 +100,7 @@ func init() {
 	register(&CheckDef{
 		ID:    "C15",
 		Level: "exploration",
-		Rule: "seeded histories on a primary with a replica attached through the simulated network: create / write / drop / recreate cycles (any number, rollback-journal and WAL mode, recreation with the same or a different page size), with the replica connected, disconnected during the drop (joins later), or restarted (clean or crash) around it. Oracle after every drop: the primary's position is previous+1 with exactly the empty checksum, database/journal/WAL/shm files are gone on the primary and - after convergence - on the replica, the name disappears from directory listings on both; after recreation the first commit has TXID drop+1, the log stays one chain, and the replica converges to the identical image. Crash points inside the drop are C05's tombstone shapes. evaluations = runs; distinct = distinct (mode, replica state at drop, recreate page-size relation, cycle count) tuples; non-trivial = run with >= 1 drop checked on both nodes",
+		Rule:  "seeded histories on a primary with a replica attached through the simulated network: create / write / drop / recreate cycles (any number, rollback-journal and WAL mode, recreation with the same or a different page size), with the replica connected, disconnected during the drop (joins later), or restarted (clean or crash) around it. Oracle after every drop: the primary's position is previous+1 with exactly the empty checksum, database/journal/WAL/shm files are gone on the primary and - after convergence - on the replica, the name disappears from directory listings on both; after recreation the first commit has TXID drop+1, the log stays one chain, and the replica converges to the identical image. Crash points inside the drop are C05's tombstone shapes. evaluations = runs; distinct = distinct (mode, replica state at drop, recreate page-size relation, cycle count) tuples; non-trivial = run with >= 1 drop checked on both nodes",
 		Run:   runC15,
 		NonTrivial: func(r *Run) bool {
 			return r.Stats["c15.drop.checked"] > 0
@@ -112,7 +112,7 @@ func init() {
 	register(&CheckDef{
 		ID:    "C16",
 		Level: "exploration",
-		Rule: "seeded images (every page size, 1..600 pages incl. checksum-block boundaries, rollback or WAL header, truncated and garbage inputs) imported over POST /import into an absent, empty, dropped or populated database (rollback or WAL mode, with committed un-checkpointed WAL frames or a leftover hot journal, same or different page size) on a primary with a replica; exports over GET /export. Oracle: a successful import is exactly one new TXID, the export equals the input except bytes 24..27 and 40..43 of page 1, the replica converges to the identical image and checksum; a failed import leaves image, position and log unchanged, does not stop the node, and a fresh Store still opens the directory; the export of an idle database equals the committed image of the position it is taken at. evaluations = imports+exports; distinct = distinct (target state, image class, outcome) tuples; non-trivial = run with >= 1 successful import verified on the replica",
+		Rule:  "seeded images (every page size, 1..600 pages incl. checksum-block boundaries, rollback or WAL header, truncated and garbage inputs) imported over POST /import into an absent, empty, dropped or populated database (rollback or WAL mode, with committed un-checkpointed WAL frames or a leftover hot journal, same or different page size) on a primary with a replica; exports over GET /export. Oracle: a successful import is exactly one new TXID, the export equals the input except bytes 24..27 and 40..43 of page 1, the replica converges to the identical image and checksum; a failed import leaves image, position and log unchanged, does not stop the node, and a fresh Store still opens the directory; the export of an idle database equals the committed image of the position it is taken at. evaluations = imports+exports; distinct = distinct (target state, image class, outcome) tuples; non-trivial = run with >= 1 successful import verified on the replica",
 		Run:   runC16,
 		NonTrivial: func(r *Run) bool {
 			return r.Stats["c16.import.ok"] > 0
